@@ -75,6 +75,17 @@ fn bad_entry(rng: &mut Rng) -> Bad {
         17 => ("unclosed-paren-short", true, format!("2024/02/01 BADQ\n{}    B    (1\n    Bad:B\n", n), 1 + k),
         _ => ("orphan-note-wide", true, "    ; メモ orphan note after a blank line\n".to_string(), 0),
     };
+    // a rejected transaction may end in metadata: inline on its last posting, or on a line of its
+    // own (still part of the entry); what follows the blank line after it is not
+    let mut text = text;
+    if !syntactic && text.starts_with("2024/") && rng.chance(1, 3) {
+        if rng.chance(1, 2) {
+            let body = text.trim_end_matches('\n').to_string();
+            text = format!("{}  ; tail note\n", body);
+        } else {
+            text.push_str("    ; tail note on a line of its own\n");
+        }
+    }
     Bad { kind, syntactic, text, stop }
 }
 
@@ -180,7 +191,12 @@ impl Check for C14 {
                 first = b.lines + 1;
                 b.push(&bad.text);
                 last = b.lines;
-                if bad.kind.starts_with("directive-cut") && rng.chance(1, 2) {
+                if bad.text.contains("; tail note") && rng.chance(1, 2) {
+                    // blank line(s), then a top-level comment
+                    b.blank(1 + rng.usize(2));
+                    b.push(rng.pick_str(&[VALID[1], VALID[2], "; a comment right after the rejected entry\n"]));
+                    b.blank(1);
+                } else if bad.kind.starts_with("directive-cut") && rng.chance(1, 2) {
                     // no blank line: the following line starts the next (valid) entry
                     b.push(rng.pick_str(&[VALID[0], VALID[1], VALID[7]]));
                     b.blank(1);
@@ -285,7 +301,7 @@ impl Check for C14 {
          metadata, apply tag, an include of a zero-byte file), separated by 1-3 (one in six: 4-8) blank lines (in one file in three the blank lines hold spaces and tabs), each file independently LF or CRLF; the deepest file then holds exactly one invalid entry followed by \
          0-2 valid ones; the including files hold the include line followed by more valid content. Invalid entry: semantic (unbalanced in 1 or 3 commodities, false \
          assertion, two unconstrained postings, zero rate, cost in the amount's commodity, alias conflicting with a used account) or syntactic (impossible date, \
-         `1,23`, unclosed `(`, unclosed `{`, unclosed lot note `(` with a `)` further down in a valid entry, a directive cut off after its keyword (with the next entry on the very next line), dangling `@`, garbage line (long and 3 bytes short), malformed last posting of a 6-10 line entry, orphan posting / orphan multi-byte note after a blank line), optionally with a note line \
+         `1,23`, unclosed `(`, unclosed `{`, unclosed lot note `(` with a `)` further down in a valid entry, a directive cut off after its keyword (with the next entry on the very next line), dangling `@`, garbage line (long and 3 bytes short), malformed last posting of a 6-10 line entry, orphan posting / orphan multi-byte note after a blank line), optionally with a note line (a rejected transaction may also end in inline or own-line metadata followed by blank lines and a comment) \
          before the postings. Ground truth: the file, the entry's first and last line, and for syntax errors the line where parsing must stop. Oracle on the rendered \
          error chain (Display of the error and its sources; CLI stderr with ANSI stripped): the ledger is rejected; every file named as location (`--> f:l:c`, \
          `failed to parse file f`) is the file holding the entry; at least one line number is shown; every gutter number and the `-->` line lie in [first, last] \
